@@ -344,7 +344,8 @@ def run(ctx):
 
         def ob(self, rule, where, slot, ok, msg, detail=None,
                nontrivial=True, loc=None):
-            if slot == 'unknown-code-skips-one-field':
+            if slot in ('unknown-code-skips-one-field',
+                        'field-loop-visits-every-field'):
                 ctx.ob('C20.D3', where, 'header:' + slot, ok,
                        '[the UNIX_FDS count is a header field of its '
                        'message] ' + msg, detail, nontrivial, loc)
